@@ -72,6 +72,11 @@ def schemas(tier):
                         a1 = [ppats[-1], [['lit', 'b']]]
                         yield [dict(p, cons=[[a0], [a1]]), {'id': '#q', 'name': pn, 'cons': [[a0]], 'sign': ['#m']}, k, k2]
                         yield [dict(p, cons=[[a0], [a1]]), {'id': '#o', 'name': pn, 'cons': [[a1]], 'sign': ['#m']}, k, k2]
+                    if not pc and not kc and len(pn) == 1:
+                        # the packet rule embeds a rule that has signers of its own (#i <= #m): those are not the packet rule's
+                        inner = {'id': '#i', 'name': pn, 'cons': [], 'sign': ['#m']}
+                        yield [inner, {'id': '#p', 'name': [['ref', '#i'], ['lit', 'a']], 'cons': [], 'sign': ['#k']}, k, k2]
+                        yield [inner, {'id': '#p', 'name': [['lit', 'b'], ['ref', '#i']], 'cons': [], 'sign': ['#k']}, k, k2]
                     if not pc and not kc:
                         # the packet rule defined twice with different signers; a key rule referring to a sub-rule
                         yield [p, dict(p, sign=['#m'], cons=[[[ppats[0], [['lit', 'b']]]]] if ppats else []), k, k2]
@@ -161,11 +166,13 @@ def check_schema(schema, tier, acc=None):
             try:
                 g2 = bool(ck.check(list(pn) + [DIGEST], list(kn)))
                 g3 = bool(ck.check(list(pn), list(kn) + [DIGEST]))
+                g4 = bool(ck.check(list(pn) + [DIGEST], list(kn) + [DIGEST]))
             except Exception as e:  # noqa
                 bad(f'check-raises-with-digest:{type(e).__name__}', f'{e!r}')
                 break
-            if g2 != got or g3 != got:
-                bad('digest-suffix-not-ignored', f'check(/{"/".join(pt)}, /{"/".join(kt)}) = {got} but {g2}/{g3} with a trailing implicit digest')
+            if g2 != got or g3 != got or g4 != got:
+                bad('digest-suffix-not-ignored', f'check(/{"/".join(pt)}, /{"/".join(kt)}) = {got} but {g2}/{g3}/{g4} with a trailing implicit digest '
+                                                 f'on the packet name / the key name / both')
                 break
     return ('ok' if not viol else 'viol') + ('|some-yes' if nyes else '|all-no'), viol
 
